@@ -369,12 +369,9 @@ def model_part(ctx: Ctx, max_prior: int) -> List[Dict[str, Any]]:
 
 def run(ctx: Ctx) -> None:
     quick = ctx.tier == "quick"
-    spec_classes = model_part(ctx, 2 if quick else 3)
-    if ctx.violations:
-        return
-    by_op: Dict[str, set] = {}
-    for c in spec_classes:
-        by_op.setdefault(c["op"], set()).add((c["ph"], c["call"]))
+    # the protocol model is checked while the real crashes run (its crash classes are needed at the end)
+    bg = ThreadPoolExecutor(max_workers=1)
+    model_future = bg.submit(model_part, ctx, 2 if quick else 3)
 
     base = scratch_dir("c03")
     tables = prepare_tables(base)
@@ -417,8 +414,10 @@ def run(ctx: Ctx) -> None:
             for k, cl in enumerate(classes):
                 pick.setdefault(cl, []).append(k)
             ks = sorted({r.choice(v) for v in pick.values()})
-            if op == "append":          # other priors of append: a thinner sample (the classes are covered by prior 1)
-                ks = sorted(r.sample(ks, min(10, len(ks))))
+            if op == "append":          # other priors of append: the classes prior 1 does not have + a thin sample of the rest
+                have = set(next(cl for (o2, p2, _s, _i, _p, _q, cl) in plans if o2 == "append" and p2 == 1))
+                must = [k for k in ks if classes[k] not in have]
+                ks = sorted(set(must) | set(r.sample(ks, min(10, len(ks)))))
         else:
             ks = list(range(n + 1))
         for k in ks:
@@ -437,6 +436,7 @@ def run(ctx: Ctx) -> None:
 
     # (b) reopen with the library, batched over a few fresh interpreters
     chunks = [cases[i::8] for i in range(8)]
+    chunks = [ch for ch in chunks if ch]
 
     def reopen(chunk: List[Tuple[Case, Any]]) -> List[Dict[str, Any]]:
         if not chunk:
@@ -451,17 +451,29 @@ def run(ctx: Ctx) -> None:
         with open(of) as f:
             return json.load(f)
 
-    with ThreadPoolExecutor(max_workers=8) as ex:
-        reports = list(ex.map(reopen, chunks))
-    for chunk, reps in zip(chunks, reports):
-        for (c, _x), rep in zip(chunk, reps):
-            judge_reopen(ctx, c, rep)
+    pool = ThreadPoolExecutor(max_workers=8)
+    reopen_futures = [pool.submit(reopen, ch) for ch in chunks]
 
     # (c) the step logs are behaviours of the specification, the survivors are what it predicts
+    # (TLC runs while the reopen workers are busy)
     traces = [c.trace for c, _ in cases]
     names = [c.name for c, _ in cases]
-    n_ok = judge(ctx, traces, names, C03_INV, f"Trace_FS {len(traces)} crash step logs", prop_prefix="model:")
+    n_ok = judge(ctx, traces, names, C03_INV, f"Trace_FS {len(traces)} crash step logs", prop_prefix="model:", ancestors=False)
     ctx.count_traces(n_ok)
+
+    for chunk, fut in zip(chunks, reopen_futures):
+        for (c, _x), rep in zip(chunk, fut.result()):
+            judge_reopen(ctx, c, rep)
+    pool.shutdown()
+
+    spec_classes = model_future.result()
+    bg.shutdown()
+    # per operation: the specification's classes over the prior-snapshot counts that were executed
+    executed = {(c.op, c.prior) for c, _ in cases}
+    by_op: Dict[str, set] = {}
+    for sc in spec_classes:
+        if (sc["op"], sc["prior"]) in executed:
+            by_op.setdefault(sc["op"], set()).add((sc["ph"], sc["call"]))
 
     # coverage of the specification's crash classes by real crashes
     hit: Dict[str, set] = {}
